@@ -371,7 +371,7 @@ func drawC01(t *rapid.T) C01Case {
 	}
 	c.Extra = drawSimpleBlock(t, s)
 	c.Mut = Mutation{
-		Kind:  rapid.SampledFrom(c01Kinds).Draw(t, "kind"),
+		Kind:  c01Kinds[spreadInt(t, "kind", len(c01Kinds))],
 		I:     rapid.IntRange(0, 5).Draw(t, "i"),
 		J:     rapid.IntRange(0, 5).Draw(t, "j"),
 		Bit:   rapid.IntRange(0, 4095).Draw(t, "bit"),
